@@ -203,10 +203,18 @@ class _Quadrature(torch.autograd.Function):
                 # are still the same objects as the objects outside
                 with torch.enable_grad():
                     f = fcn(x, *params)
-                dfdts = torch.autograd.grad(f, tensor_params,
-                                            grad_outputs=grad_ys,
-                                            retain_graph=True,
-                                            create_graph=torch.is_grad_enabled())
+                if f.requires_grad:
+                    dfdts = torch.autograd.grad(f, tensor_params,
+                                                grad_outputs=grad_ys,
+                                                retain_graph=True,
+                                                create_graph=torch.is_grad_enabled(),
+                                                allow_unused=True)
+                else:
+                    # the integrand does not depend on any of the parameters
+                    dfdts = [None for _ in tensor_params]
+                # the parameters that do not influence the integrand get zero gradient
+                dfdts = tuple(torch.zeros_like(p) if dfdt is None else dfdt
+                              for (dfdt, p) in zip(dfdts, tensor_params))
                 return dfdts
 
             # reconstruct grad_params
